@@ -74,7 +74,9 @@ pub fn openssl_csrs_with_keys(rng: &mut Rng, n: usize) -> Vec<(Base, PKey<Privat
 			Err(_) => continue,
 		};
 		let mut nb = X509NameBuilder::new().unwrap();
-		let variant = rng.below(6);
+		// deterministic cycle, so that every supported key/digest pairing meets every subject variant
+		let variant = ((idx as u64) * 7 + (idx / keys.len()) as u64) % 6;
+		let _ = rng.below(6);
 		let _ = nb.append_entry_by_text("CN", &gen_host(rng));
 		if variant == 1 {
 			let _ = nb.append_entry_by_text("OU", "a");
